@@ -568,8 +568,13 @@ class Capsule(Primitive):
     def _create_mesh(self):
         log.debug("creating mesh for `Capsule` primitive")
 
+        # `sections` is the number of facets around the axis
+        # and is also used for the profile of the two hemispheres
+        sections = int(self.primitive.sections)
         mesh = creation.capsule(
-            radius=self.primitive.radius, height=self.primitive.height
+            radius=self.primitive.radius,
+            height=self.primitive.height,
+            count=[sections, sections],
         )
         mesh.apply_transform(self.primitive.transform)
 
